@@ -290,6 +290,19 @@ func Replay(builds []Built, path string) int {
 // scenario statistics, scenario names prefixed with the configuration.
 func RunSched(prop, tier string, builds []Built, budget time.Duration) []explore.Stats {
 	var all []explore.Stats
+	// the (small) shapes builds first: what they do not use of their share goes to the others
+	ordered := make([]Built, 0, len(builds))
+	for _, b := range builds {
+		if b.Probe == "shapes" {
+			ordered = append(ordered, b)
+		}
+	}
+	for _, b := range builds {
+		if b.Probe != "shapes" {
+			ordered = append(ordered, b)
+		}
+	}
+	builds = ordered
 	for bi, b := range builds {
 		share := budget / time.Duration(len(builds)-bi)
 		t0 := time.Now()
